@@ -569,11 +569,13 @@ def r7(chk, repo):
     pi = am.func("Array.__post_init__")
     gi = am.func("Array.__getitem__")
     # post_init: the call computing chunk_offsets is the last statement and passes self.records_per_chunk
-    last = pi.node.body[-1]
-    ok = isinstance(last, ast.Assign) and norm(last.targets[0]) == "self.chunk_offsets" and isinstance(last.value, ast.Call) and norm(last.value.func) == "compute_chunk_offsets" \
-        and [norm(a) for a in last.value.args] == ["self.byte_ranges", "self.records_per_chunk"]
-    chk.require(ok, "C01-R7", f"{am.relpath}:Array.__post_init__", "chunk_offsets = compute_chunk_offsets(self.byte_ranges, self.records_per_chunk), computed after normalisation",
-                f"the offsets table is built by {short(last, 80)} (must use the normalised self.records_per_chunk, as the last step)", key="post_init:offsets-key")
+    offs = [st for st in pi.node.body if isinstance(st, ast.Assign) and norm(st.targets[0]) == "self.chunk_offsets"]
+    rpc_stores = [n.lineno for n in pi.own_nodes() if isinstance(n, ast.Assign) and any(norm(t) == "self.records_per_chunk" for t in n.targets)]
+    last = offs[-1] if offs else pi.node.body[-1]
+    ok = bool(offs) and isinstance(last.value, ast.Call) and norm(last.value.func) == "compute_chunk_offsets" \
+        and [norm(a) for a in last.value.args] == ["self.byte_ranges", "self.records_per_chunk"] and all(ln < last.lineno for ln in rpc_stores)
+    chk.require(ok, "C01-R7", f"{am.relpath}:Array.__post_init__", "chunk_offsets = compute_chunk_offsets(self.byte_ranges, self.records_per_chunk), computed after the normalisation of the chunk size",
+                f"the offsets table is built by {short(last, 80)} (must use self.records_per_chunk after its normalisation)", key="post_init:offsets-key")
     gcall = None
     for c in calls_in(gi):
         if any(x.key.endswith(":groupby_chunks") for x in resolve_callees(repo, gi, c.func)):
